@@ -70,6 +70,7 @@ void* memset(void* p, int c, size_t n) {
 static task_t* bag[MAXT]; static unsigned nbag;
 static ctx_t* run_ctx; static wait_t* run_wait;
 static unsigned depth, cur_slot, n_hooks, n_drain;
+static unsigned nestmask = NESTMASK, drainmask = DRAIN, nestpol = NESTPOL, force_local;   /* task order of the current run */
 static unsigned n_alloc, n_free, n_notify, n_tasks_run;
 static int cancelled;
 static u64 dummy_pool;
@@ -98,7 +99,7 @@ void vp_body_run(u32 id, u32 b, u32 e) {
   VP_ASSERT((int)b < (int)e && (int)b >= 0 && (int)e <= NELEM, "body applied to an empty or foreign range");
   if (id < MAXB) active[id]++;
   { unsigned h = n_hooks++;
-    if (depth < NEST && (NESTMASK >> h & 1)) { depth++; run_some(); depth--; } }   /* other threads make progress while this body runs */
+    if (depth < NEST && (nestmask >> h & 1)) { depth++; run_some(); depth--; } }   /* other threads make progress while this body runs */
   if (id < MAXB) active[id]--;
 }
 void vp_body_join(u32 into, u32 from) {
@@ -117,7 +118,7 @@ void vp_body_join(u32 into, u32 from) {
 /* cancellation arrives (from some other thread) just before the CANCEL-th observation point (1-based): an observation point is
    every poll of the context by the task code and every task dispatch. CANCEL=0: never. */
 static unsigned n_cancel_points;
-static void cancel_point(void) { n_cancel_points++; if (CANCEL && n_cancel_points == CANCEL) cancelled = 1; }
+static void cancel_point(void) { n_cancel_points++; if (CANCEL && !force_local && n_cancel_points == CANCEL) cancelled = 1; }
 void _ZN3tbb6detail2r110initializeERNS0_2d118task_group_contextE(ctx_t* c) { vp_ctx_initialize(c); }   /* state=created, not cancelled, no parent */
 void _ZN3tbb6detail2r17destroyERNS0_2d118task_group_contextE(ctx_t* c) {}
 /* typed allocation (cbmc derives the object type from malloc(sizeof(T)); an untyped byte object would make every field read
@@ -167,6 +168,7 @@ static void run_one(task_t* t) {
   ed_t ed;
   unsigned save = cur_slot;
   vp_ed_init(&ed, run_ctx);
+  if (force_local) cur_slot = 0; else
 #ifdef STOLEN   /* concrete per query: bit i = the i-th dispatched task runs on another slot than it was spawned from */
   cur_slot = (STOLEN >> (n_tasks_run - 1)) & 1;
 #else
@@ -185,7 +187,7 @@ static task_t* take(int oldest) {
   return t;
 }
 static void run_some(void) {
-  for (unsigned i = 0; i < NESTK; i++) if (nbag > 0) run_one(take(NESTPOL));
+  for (unsigned i = 0; i < NESTK; i++) if (nbag > 0) run_one(take(nestpol));
 }
 void _ZN3tbb6detail2r116execute_and_waitERNS0_2d14taskERNS2_18task_group_contextERNS2_12wait_contextES6_(task_t* t, ctx_t* tc, wait_t* w, ctx_t* wc) {
   run_ctx = tc; run_wait = w; cur_slot = 0;
@@ -193,13 +195,12 @@ void _ZN3tbb6detail2r116execute_and_waitERNS0_2d14taskERNS2_18task_group_context
     ed_t ed; vp_ed_init(&ed, run_ctx); n_tasks_run++;
     vp_task_execute(t, &ed);                          /* the root task is run by the calling thread, never stolen */
   }
-  for (unsigned s = 0; s < MAXT; s++) if (nbag > 0) { unsigned d = n_drain++; run_one(take(DRAIN >> d & 1)); }
+  for (unsigned s = 0; s < MAXT; s++) if (nbag > 0) { unsigned d = n_drain++; run_one(take(drainmask >> d & 1)); }
   VP_ASSERT(nbag == 0, "VP bound: more tasks than the drain loop runs");
   VP_ASSERT(vp_wait_refs(w) == 0, "all tasks ran but the wait object was not released: wait_for_all would hang");
 }
 
-int main(void) {
-  vp_reduce(0, NELEM, GRAIN);
+static void check_run(void) {
   VP_ASSERT(n_notify == 1, "wait released not exactly once");
   VP_ASSERT(n_alloc == n_free, "a task or tree node was never freed");
   for (unsigned i = 1; i < MAXB; i++) if (i < n_bodies) {
@@ -212,5 +213,29 @@ int main(void) {
     VP_ASSERT(vp_result_len() == NELEM, "number of operands in the result differs from the range size");
     VP_ASSERT(vp_result_seq() == expect, "result is not the left-to-right fold: operand lost, duplicated or reordered");
   }
+}
+int main(void) {
+#ifdef DETERMINISTIC
+  /* run 1: reference order (owner-like LIFO, nothing stolen, no overlap); run 2: the order of this query. The body's second
+     accumulator is a non-associative, non-commutative fingerprint of the join tree and of the leaf ranges: it must not depend
+     on the order (parallel_deterministic_reduce: split/join tree is a function of range and grain size only). */
+  nestmask = 0; drainmask = 0; force_local = 1;
+  vp_reduce(0, NELEM, GRAIN);
+  VP_ASSERT(!cancelled, "VP: reference run cancelled");
+  check_run();
+  u32 ref_shape = vp_result_shape(); unsigned ref_bodies = n_bodies, ref_tasks = n_tasks_run;
+  for (unsigned i = 0; i < MAXB; i++) { split_from[i] = 0; joined[i] = 0; destroyed[i] = 0; active[i] = 0; }
+  n_bodies = 1; n_alloc = n_free = n_notify = n_tasks_run = n_hooks = n_drain = n_cancel_points = 0; nbag = 0; depth = 0;
+  nestmask = NESTMASK; drainmask = DRAIN; force_local = 0;
+  vp_reduce(0, NELEM, GRAIN);
+  check_run();
+  if (!cancelled) {
+    VP_ASSERT(vp_result_shape() == ref_shape, "deterministic reduce: join tree / leaf ranges depend on the task order");
+    VP_ASSERT(n_bodies == ref_bodies && n_tasks_run == ref_tasks, "deterministic reduce: number of bodies / tasks depends on the task order");
+  }
+#else
+  vp_reduce(0, NELEM, GRAIN);
+  check_run();
+#endif
   VP_REACHED();
 }
